@@ -34,7 +34,7 @@ class Bench:
         hooks = dict(minterp.VECTOR_HOOKS)
         hooks.pop('count', None)
         hooks.update({'gettimeofday': self.h_gtod, 'onEnable': lambda it, f, st, a: 1, 'onDisable': lambda it, f, st, a: 1,
-                      'TimerEvent::initialize': self.h_t_init, 'TimerEvent::enable': self.h_t_enable, 'TimerEvent::disable': self.h_t_disable, 'Event::enable': self.h_t_enable,
+                      'TimerEvent::initialize': self.h_t_init, 'TimerEvent::enable': self.h_t_enable, 'TimerEvent::disable': self.h_t_disable, 'Event::enable': self.h_t_enable, 'TimerEvent::isEnabled': lambda it, f, st, a: int(bool(self.timer['enabled'])), 'Event::isEnabled': lambda it, f, st, a: int(bool(self.timer['enabled'])),
                       'Event::disable': self.h_t_disable, 'max': lambda it, f, st, a: max(a[0], a[1]) if len(a) == 2 and all(isinstance(x, int) for x in a) else minterp._numeric_limit('max')(it, f, st, a)})
         self.it = minterp.Interp(prog, {'str:empty': [0]}, hooks=hooks, inline=('*',), max_steps=400000)
         it = self.it
